@@ -53,7 +53,7 @@ def gen(rng, tier):
     r = rng.random()
     if r < 0.72:
       target = rng.choice(['probe', 'probe', 'probe', 'method', 'bare_method',
-                           'unregistered', 'klass', 'plain_class'])
+                           'unregistered', 'klass', 'plain_class', 'posonly'])
       spec = rng.choice(specs)
       uid[0] += 1
       if target == 'probe':
@@ -74,6 +74,11 @@ def gen(rng, tier):
       elif target == 'klass':
         param = rng.choice(['ka', 'kb', 'nope'])
         sel_full = 'mm.K'
+      elif target == 'posonly':
+        # def po(a=1, /, b=2): gin passes values by keyword, which `a` cannot
+        # take
+        param = rng.choice(['a', 'a', 'b'])
+        sel_full = 'mm.po'
       elif target == 'plain_class':
         # a class with neither __init__ nor __new__ takes no parameters at all
         param = rng.choice(['bogus', 'a', 'self'])
@@ -100,6 +105,8 @@ def gen(rng, tier):
         sel = rng.choice(['mm.K', 'K'])
       if target == 'plain_class':
         sel = rng.choice(['mm.Plain', 'Plain'])
+      if target == 'posonly':
+        sel = rng.choice(['mm.po', 'po'])
       ops.append({'op': 'attempt', 'target': target, 'probe': spec['name'],
                   'sel': sel, 'param': param, 'val': 'v%d' % uid[0],
                   'api': rng.choice(APIS), 'scope': rng.choice(['sa', 'sa/sb'])})
@@ -210,6 +217,10 @@ def run(case):
   KC = gin.get_configurable(K)
   plain, _ = probes.compile_probe({'name': 'Plain', 'kind': 'cls_plain'}, hook)
   gin.configurable('Plain', module='mm')(plain)
+  gpo = {'_hook': hook}
+  exec('def po(a=1, /, b=2):\n'  # pylint: disable=exec-used
+       "  return _hook('po', {'a': a, 'b': b}, (), {}, None)\n", gpo)
+  gin.configurable('po', module='mm')(gpo['po'])
   probes.plant_module('vmod_c11', {'K': K})
 
   def snapshot():
@@ -244,6 +255,8 @@ def run(case):
       return op['param'] == 'ma', 'mm.K.meth'
     if t == 'klass':
       return op['param'] == 'ka', 'mm.K'
+    if t == 'posonly':
+      return op['param'] == 'b', 'mm.po'
     return False, None
 
   def do_attempt(op):
